@@ -297,9 +297,10 @@ def make_case(rng):
     doc = W.Doc(root, utf8=utf8, cesu8=(special == "cesu8-supplementary"), dedupe=(special != "no-dedupe"), with_resmap=g.with_resmap,
                 extra_strings=[rtext(rng) for _ in range(rng.choice((0, 0, 1, 3)))],
                 extra_resmap_ids=[("theme", KNOWN_IDS["theme"])] if (g.with_resmap and rng.random() < 0.2) else [],
-                share_string_data=(special == "shared-string-data"), sorted_attrs=rng.random() < 0.5)
+                share_string_data=(special == "shared-string-data"), sorted_attrs=rng.random() < 0.5,
+                attr_size=rng.choice((0x14,) * 8 + (0x18, 0x1C)))
     feats = {"special": special, "pool": "utf8" if utf8 else "utf16", "elements": g.n_elems, "depth": g.depth, "nsdecls": g.n_ns,
-             "types": sorted(W.TYPE_NAMES[t] for t in g.types_used), "text": sorted(g.text_kinds), "resmap": g.with_resmap}
+             "types": sorted(W.TYPE_NAMES[t] for t in g.types_used), "text": sorted(g.text_kinds), "resmap": g.with_resmap, "attr_size": doc.attr_size}
     return doc, feats
 
 
